@@ -565,7 +565,14 @@ impl Debugger {
     ///
     /// **! change exploration context**
     fn continue_execution(&mut self) -> Result<StopReason, Error> {
-        if let Some(sign_or_wp) = self.step_over_breakpoint()? {
+        // the step over the breakpoint the thread sits on may already be the end of the process
+        // (a breakpoint on the instruction that exits)
+        let stepped_over = self.step_over_breakpoint();
+        let stepped_over = match self.finalize_if_exited(stepped_over) {
+            Err(Error::ProcessExit(code)) => return Ok(StopReason::DebugeeExit(code)),
+            other => other?,
+        };
+        if let Some(sign_or_wp) = stepped_over {
             match sign_or_wp {
                 StopReason::Watchpoint(pid, current_pc, ty) => {
                     self.execute_on_watchpoint_hook(pid, current_pc, &ty)?;
